@@ -530,6 +530,9 @@ func legacy2Exec(ops []string, mon *Mon) []string {
 				c := &d.Commands[i]
 				v := database.VerifLegacyScore(c, words, boosts)
 				vs[i] = F(v)
+				if math.IsNaN(v) { // 0·Inf: the sign bit of a NaN is not observable on the model side (Float.toBits canonicalises)
+					vs[i] = "f:7ff8000000000000"
+				}
 				// branch distribution of calculateScore
 				matched, maxW := 0, 0.0
 				for _, w := range words {
